@@ -16,7 +16,7 @@ _ALL = {
     "C01": {"suites": ["prog", "wells", "save"], "mask": {"prog": OUT | REC | VOL | CMP | CON}},
     "C02": {"suites": ["prog", "evocmd", "ctor", "floatops"], "mask": {"prog": OUT | VOL | CON, "evocmd": OUT | VOL | CON}},
     "C03": {"suites": ["prog", "evocmd", "save"], "mask": {"prog": OUT | REC | VOL | CON, "evocmd": OUT | REC | VOL | CON}},
-    "C04": {"suites": ["prog"], "mask": {"prog": OUT | VOL | CON}},
+    "C04": {"suites": ["prog", "evocmd"], "mask": {"prog": OUT | VOL | CON, "evocmd": OUT | VOL | CON}},
     "C05": {"suites": ["prog", "ctor"], "mask": {"prog": VOL | CMP | CON}},
     "C06": {"suites": ["pvol", "prog", "params"], "mask": {"prog": OUT | REC, "params": OUT | REC}},
     "C07": {"suites": ["prog", "pcol"], "mask": {"prog": OUT | REC}},
